@@ -221,6 +221,7 @@ def run_case(prog: Program, fi: FuncInfo, setup: Callable, *, inline_ctor=False,
                 st.memo_hidden = True
                 st.oracle.trace.append("-- recomputation with nothing memoised")
                 saved = list(st.effects)
+                st.cold_mark = len(st.effects)
                 k3, v3, e3 = call()
                 out.cold = _outcome_snapshot(st, k3, v3, e3)
                 st.effects[:] = saved
